@@ -210,7 +210,13 @@ func runC22(s *simrt.Sim) {
 			if useStd {
 				// (the fork keeps the Go 1.2 contract: the last byte of any read operation may be
 				// unread; modern bufio refuses in a few more situations - not a stream property)
-				if serr := std.UnreadByte(); (serr == nil) != (err == nil) {
+				serr := std.UnreadByte()
+				if serr == nil && err != nil {
+					// the other direction is a regression: a byte bufio gives back is refused
+					fail("C22.stdlike", "unreadbyte-refused-where-std-accepts", "UnreadByte returned %v after %s where bufio.Reader accepts it", err, lastKind)
+					return
+				}
+				if (serr == nil) != (err == nil) {
 					useStd = false
 				}
 			}
